@@ -23,7 +23,8 @@ RULE = ("explicit-state search: states = contents of two real HDF5 files X, Y (c
         "is_cooler is False WITHOUT raising for every other path of the alphabet, a data set path, a missing path, a missing file; "
         "foreign objects and attributes untouched; an operation on a missing source (no overwrite) touches nothing that existed. "
         "Non-trivial: a transition from a state holding >=1 collection. Distinct by construction (state dedup).")
-BOUNDS = {"quick": "depth 2 from both initial states", "thorough": "depth 3 from both initial states"}
+BOUNDS = {"quick": "depth 2 from the empty and the seeded initial state; depth 1 over a 5-path alphabet from the linked initial state (soft + hard link to a collection)",
+          "thorough": "depth 3 from the empty and seeded states (operations on a missing source up to depth 2), depth 2 from the linked state"}
 ASSUMPTIONS = ["excluded from the alphabet (no defined meaning): mv / hard ln whose source is the root group, any operation whose destination "
                "lies inside the source's own subtree or is already occupied (except create and cp(overwrite)), links through links of another file",
                "two files with the same canonical model state have the same futures under every operation of the alphabet"]
@@ -43,7 +44,7 @@ def data_content(d):
     return bins, fx.pixvals(cells, len(bins))
 
 
-def all_ops():
+def all_ops(PATHS=PATHS):
     ops = []
     for f in FILES:
         for p in PATHS:
@@ -68,6 +69,8 @@ def all_ops():
 
 
 OPS = all_ops()
+PATHS_L = ["/", "/a", "/c", "/h", "/d"]
+OPS_L = all_ops(PATHS_L)     # alphabet of the 'linked' initial state (X: /a = D1, /c soft -> /a, /h hard -> /a; /d free)
 
 
 def units(tier):
@@ -75,6 +78,8 @@ def units(tier):
     for init in ("empty", "seeded"):
         for k in range(len(OPS)):
             yield {"init": init, "first": k, "depth": depth}
+    for k in range(len(OPS_L)):
+        yield {"init": "linked", "first": k, "depth": depth - 1}
 
 
 def spell(path, k):
@@ -153,7 +158,7 @@ def expected_read(d):
     return _content_cache[d]
 
 
-def observe(R, inner, w, m, seeded):
+def observe(R, inner, w, m, seeded, paths=PATHS):
     """the invariant, evaluated in one state"""
     import cooler
     from cooler import fileops
@@ -226,7 +231,7 @@ def observe(R, inner, w, m, seeded):
                 R.mismatch("collection-unreadable:" + type(e).__name__, inner, f"file={f} path={p} {e!s:.150}")
                 ok = False
         # ---- recognition is False, not an error, everywhere else ----
-        for p in PATHS + ["/nope", "/a/nope/deeper", "/foreign", "/foreign/d", "/bins/start"]:
+        for p in list(paths) + ["/nope", "/a/nope/deeper", "/foreign", "/foreign/d", "/bins/start"]:
             if p in want:
                 continue
             try:
@@ -273,12 +278,25 @@ def initial(init, d):
         fo = m.new_obj(foreign=True)
         m.objs[m.files["X"]]["children"]["foreign"] = ("hard", fo)
         m.objs[m.files["X"]]["custom_attr"] = True
+    elif init == "linked":
+        import cooler
+        from cooler import fileops
+        bins, pix = data_content("D1")
+        cooler.create_cooler(w.path("X") + "::/a", build.bins_df(bins), fx.frame(pix), columns=["count", "score"], dtypes={"score": float}, ordered=True)
+        with h5py.File(w.path("X"), "r+") as f:
+            f["/c"] = h5py.SoftLink("/a")
+            f["/h"] = f["/a"]
+        m.op_create("X", "/a", "D1", "w")
+        m.op_ln("X", "/a", "X", "/c", soft=True)
+        m.op_ln("X", "/a", "X", "/h", soft=False)
     return w, m
 
 
 def run(unit, R, tier, only=None):
     depth = unit["depth"]
     seeded = unit["init"] == "seeded"
+    OPS = OPS_L if unit["init"] == "linked" else globals()["OPS"]
+    paths = PATHS_L if unit["init"] == "linked" else PATHS
     root = scratch.sub(f"c15_{os.getpid()}_{unit['init']}_{unit['first']}")
     try:
         w0, m0 = initial(unit["init"], os.path.join(root, "s0"))
@@ -326,7 +344,7 @@ def run(unit, R, tier, only=None):
                         # source missing (no overwrite requested): whether it raises or not, nothing that existed may be touched
                         if raised is not None:
                             R.classes["refused-as-required"] += 1
-                        observe(R, inner, w2, m, seeded)
+                        observe(R, inner, w2, m, seeded, paths)
                         shutil.rmtree(w2.d, ignore_errors=True)
                         continue
                     if raised is not None:
@@ -334,7 +352,7 @@ def run(unit, R, tier, only=None):
                         # whatever happened, previously existing collections must be intact unless the op targets them
                         shutil.rmtree(w2.d, ignore_errors=True)
                         continue
-                    good = observe(R, inner, w2, m2, seeded)
+                    good = observe(R, inner, w2, m2, seeded, paths)
                     R.c["traces"] += 1
                     c = m2.canon()
                     if good and c not in seen and level < depth and not any(m2.has_external(f) for f in FILES):
@@ -352,6 +370,8 @@ def run(unit, R, tier, only=None):
         if unit["first"] == 5 and unit["init"] == "seeded":
             R.sample({"init": unit["init"], "first_op": list(OPS[unit["first"]]), "depth": depth, "alphabet_size": len(OPS),
                       "example_history": [list(OPS[q]) for q in (unit["first"], 70, 33)]})
+        if unit["first"] == 7 and unit["init"] == "linked":
+            R.sample({"init": "linked: X holds /a (cooler), /c soft link -> /a, /h hard link -> /a", "first_op": list(OPS[unit["first"]]), "depth": depth})
     finally:
         scratch.rm(root)
 
@@ -359,11 +379,11 @@ def run(unit, R, tier, only=None):
 def classify(m):
     """F19: a collection reachable through an EXTERNAL link is listed under its name inside the other file (a path that does
     not exist in the listed file), and that listed path is then not recognised.
-    F20: list_coolers raises KeyError when the file contains a dangling soft link (e.g. after the link's target was moved)."""
+    F20: list_coolers raises (AttributeError on None, or KeyError) when the file contains a dangling soft link (e.g. after the link's target was moved)."""
     if m["clause"] in ("listing!=collections-held:external-link", "listed-path-not-recognised:external-link"):
         ops = m["case"]["inner"]["ops"]
         if any(o[0] == "ln-ext" for o in ops):
             return "F19"
-    if m["clause"] == "list_coolers-raises:dangling-link" and "KeyError" in m["detail"]:
+    if m["clause"] == "list_coolers-raises:dangling-link" and ("KeyError" in m["detail"] or "'NoneType' object has no attribute 'name'" in m["detail"]):
         return "F20"
     return None
